@@ -199,6 +199,10 @@ func (bsp *batchSpanProcessor) ForceFlush(ctx context.Context) error {
 			case <-ctx.Done():
 				return ctx.Err()
 			}
+		} else if err := ctx.Err(); err != nil {
+			// The flush marker could not be enqueued before ctx was done, so
+			// spans queued ahead of it have not been flushed.
+			return err
 		}
 
 		wait := make(chan error, 1)
